@@ -8,3 +8,4 @@ open LhasaV.Props.C04
 #print axioms pm1_trees_ok
 #print axioms pm1_decode_serialise
 #print axioms pm2_decode_serialise
+#print axioms pm_init_matches_source
